@@ -1,30 +1,10 @@
-//! C13: bytes -> op sequence on CommitLog (hand decoding through `arbitrary::Unstructured`);
-//! same interpreter and model as the proptest campaign.
+//! libFuzzer front end of the `commitlog` target; decoding and oracle live in the harness library
+//! (harness/src/fuzzdec.rs) so that a crashing input can be replayed through `vcheck --replay`.
 #![no_main]
-use arbitrary::Unstructured;
 use libfuzzer_sys::fuzz_target;
-use vcheck::commitlog::{run_case, Case, Op};
-use vcheck::engine::Obs;
 
 fuzz_target!(|data: &[u8]| {
-    let mut u = Unstructured::new(data);
-    let seg_size = *u.choose(&[1024usize, 1500, 4096]).unwrap_or(&1024);
-    let max_segs = u.int_in_range(1..=5).unwrap_or(1);
-    let mut ops = Vec::new();
-    while !u.is_empty() && ops.len() < 400 {
-        let Ok(k) = u.int_in_range(0u8..=9) else { break };
-        let op = match k {
-            0..=3 => Op::Append { size: u.int_in_range(1u32..=64).unwrap_or(1) },
-            4 => Op::Append { size: u.int_in_range(400u32..=1100).unwrap_or(400) },
-            5 => Op::Append { size: u.int_in_range(1025u32..=6000).unwrap_or(1025) },
-            6 => Op::AppendFill { delta: u.arbitrary().unwrap_or(0) },
-            _ => Op::Read { sel: u.arbitrary().unwrap_or(0), pick: u.arbitrary().unwrap_or(0), len_ix: u.int_in_range(0u8..=7).unwrap_or(0) },
-        };
-        ops.push(op);
-    }
-    let case = Case { seg_size, max_segs, ops };
-    let mut obs = Obs::default();
-    if let Err(f) = run_case(&case, &mut obs) {
-        panic!("C13 violated: {} :: {} :: {}", f.signature, f.detail, serde_json::to_string(&case).unwrap_or_default());
+    if let Err(f) = vcheck::fuzzdec::run_target("commitlog", data) {
+        panic!("property violated: {} :: {}", f.signature, f.detail);
     }
 });
